@@ -1,0 +1,30 @@
+//go:build verif
+
+package main
+
+import (
+	"fmt"
+	"os"
+	"runtime"
+	"time"
+)
+
+// verifProbe reports the number of live goroutines (after letting finished ones exit) so that a
+// verification harness can check that the tuning run releases the workers it started.
+func verifProbe(phase string) {
+	if os.Getenv("VERIF_SIMFINETUNE_PROBE") == "" {
+		return
+	}
+	last, stable := -1, 0
+	for i := 0; i < 400 && stable < 5; i++ {
+		runtime.Gosched()
+		n := runtime.NumGoroutine()
+		if n == last {
+			stable++
+		} else {
+			stable, last = 0, n
+		}
+		time.Sleep(200 * time.Microsecond)
+	}
+	fmt.Fprintf(os.Stderr, "VERIF-GOROUTINES phase=%s n=%d\n", phase, runtime.NumGoroutine())
+}
